@@ -195,6 +195,16 @@ impl ExpGuest for G {
             n
         }
     }
+    // map results and parameters: entry arrays allocated by the bindings, released by post-return
+    fn census(n: u32) -> wit_bindgen::rt::Map<u32, u64> {
+        (0..n).map(|i| (i * 3 + 1, (i as u64) << 33 | 5)).collect()
+    }
+    fn roster(n: u32) -> wit_bindgen::rt::Map<String, Vec<u8>> {
+        (0..n).map(|i| (format!("k{i}"), vec![i as u8; (i % 4) as usize])).collect()
+    }
+    fn tally(m: wit_bindgen::rt::Map<u32, u64>) -> u64 {
+        m.iter().fold(0u64, |a, (k, v)| a.wrapping_mul(31).wrapping_add(*k as u64).wrapping_add(*v))
+    }
 }
 pub fn errctx_digest(m: &str) -> u32 {
     m.bytes().fold(m.len() as u32, |a, b| a.wrapping_mul(131).wrapping_add(b as u32))
@@ -459,7 +469,10 @@ fn world() -> &'static (Resolve, BTreeMap<String, Function>, BTreeMap<String, Fu
             return w;
         }
         let mut resolve = Resolve::default();
-        let pkg = resolve.push_str("w.wit", C07_WIT).expect("c07 wit");
+        // the host's view of the world: a map is, for the canonical ABI, a list of (key, value) tuples
+        let host_wit = C07_WIT.replace("map<u32, u64>", "list<tuple<u32, u64>>").replace("map<string, list<u8>>", "list<tuple<string, list<u8>>>");
+        assert!(!host_wit.contains("map<"));
+        let pkg = resolve.push_str("w.wit", &host_wit).expect("c07 wit");
         let wid = resolve.select_world(&[pkg], None).unwrap();
         let (mut imports, mut exports) = (BTreeMap::new(), BTreeMap::new());
         let (mut thing, mut gadget, mut token) = (None, None, None);
@@ -995,7 +1008,7 @@ pub fn run_one(fam: &str, seed: u64, idx: u64, ch: Choices, trace: bool) -> RunR
     for _ in 0..nops {
         steps += 1;
         let nowned = st().owned.len();
-        let op = with(|h| h.ch.weighted(&[4, 2, if nowned > 0 { 3 } else { 0 }, if nowned > 1 { 3 } else { 0 }, if nowned > 0 { 2 } else { 0 }, 2, if nowned > 0 { 3 } else { 0 }, if nowned > 0 { 3 } else { 0 }, if nowned > 0 { 2 } else { 0 }, 2, if nowned > 0 { 2 } else { 0 }, 5, 2, 2, 1, if nowned > 0 { 2 } else { 0 }, if nowned > 0 { 1 } else { 0 }, 2, if st().tokens.is_empty() { 0 } else { 3 }]));
+        let op = with(|h| h.ch.weighted(&[4, 2, if nowned > 0 { 3 } else { 0 }, if nowned > 1 { 3 } else { 0 }, if nowned > 0 { 2 } else { 0 }, 2, if nowned > 0 { 3 } else { 0 }, if nowned > 0 { 3 } else { 0 }, if nowned > 0 { 2 } else { 0 }, 2, if nowned > 0 { 2 } else { 0 }, 5, 2, 2, 1, if nowned > 0 { 2 } else { 0 }, if nowned > 0 { 1 } else { 0 }, 2, if st().tokens.is_empty() { 0 } else { 3 }, 2]));
         match op {
             // constructor
             0 => {
@@ -1218,6 +1231,43 @@ pub fn run_one(fam: &str, seed: u64, idx: u64, ch: Choices, trace: bool) -> RunR
                     check_id(rep, expect, "swap result");
                     with(|h| h.fault("exported_resource_owned_through_alias"));
                 }
+            }
+            // maps: the entry array of a result is allocated by the bindings and released by
+            // post-return; the entry array of a parameter is taken over and freed by the guest
+            19 => {
+                let n = pick(6) as u32;
+                match pick(3) {
+                    0 => {
+                        let r = call_export("census", &[Val::U(n as u64)]);
+                        let expect = Val::List((0..n).map(|i| Val::Record(vec![Val::U((i * 3 + 1) as u64), Val::U((i as u64) << 33 | 5)])).collect());
+                        if r.as_ref() != Some(&expect) {
+                            violate("H-VALUES", "census", format!("census({n}) returned {}", r.as_ref().map(short).unwrap_or_default()));
+                        }
+                    }
+                    1 => {
+                        let r = call_export("roster", &[Val::U(n as u64)]);
+                        let mut want: Vec<Val> = (0..n).map(|i| Val::Record(vec![Val::Str(format!("k{i}")), Val::List(vec![Val::U(i as u64 & 0xff); (i % 4) as usize])])).collect();
+                        want.sort_by_key(|v| format!("{v:?}"));
+                        let mut got = match r {
+                            Some(Val::List(xs)) => xs,
+                            other => violate("H-VALUES", "roster", format!("roster({n}) returned {other:?}")),
+                        };
+                        got.sort_by_key(|v| format!("{v:?}"));
+                        if got != want {
+                            violate("H-VALUES", "roster", format!("roster({n}) returned other entries than the implementation produced"));
+                        }
+                    }
+                    _ => {
+                        let entries: Vec<(u64, u64)> = (0..n as u64).map(|i| (i * 7 + 2, pick(1000) as u64)).collect();
+                        let expect = entries.iter().fold(0u64, |a, (k, v)| a.wrapping_mul(31).wrapping_add(*k).wrapping_add(*v));
+                        let l = Val::List(entries.iter().map(|(k, v)| Val::Record(vec![Val::U(*k), Val::U(*v)])).collect());
+                        let r = call_export("tally", &[l]);
+                        if r != Some(Val::U(expect)) {
+                            violate("H-VALUES", "tally", format!("tally returned {r:?}, expected {expect}"));
+                        }
+                    }
+                }
+                with(|h| h.fault("map_result_or_parameter"));
             }
             // exp3.make-token: a resource defined by an interface without functions
             17 => {
